@@ -29,7 +29,7 @@ P = {
    text="Real clusters of every layout up to 3 DCs x 3 nodes (39 layouts) in virtual time, including clusters that grow while calls are issued: for each call, consistency level, operation kind and failing replica subset the issuer's and peers' storage is inspected at the moment the call returns; Err carries the acknowledgement count the harness let through; a third of the calls repeated identically under the same failures; bounded-progress restatement of 'replicated later' (one explicit repair round after faults stop).",
    note="hooks H1-H4; acknowledgement = request delivered, remote storage succeeded, reply not dropped", ref="§5 C06"),
  "C07": dict(cat="fault_enumeration", technique="runtime monitoring: crash-point enumeration (after and inside requests) with restart on the same storage and set==store oracle",
-   text="Request histories (single and bulk, bulk entries sharing one stamp, extreme ids, 16-id universes) against real keyspace actors; a crash point after every request and inside requests (storage write done, in-memory update not); a fresh group loaded from the same storage must serialize exactly what iter_metadata holds, and every mutation visible before the stop is present or superseded by an acknowledged delete. MemStore in process; SQLite files reopened; LMDB with a real process exit between the two phases.",
+   text="Request histories (single and bulk, bulk entries sharing one stamp, extreme ids, 16-id universes, point lookups before the first write of a keyspace and between requests) against real keyspace actors; a crash point after every request and inside requests (storage write done, in-memory update not); a fresh group loaded from the same storage must serialize exactly what iter_metadata holds, and every mutation visible before the stop is present with the same stamp AND kind or superseded by an acknowledged delete. MemStore in process; SQLite files reopened; LMDB with a real process exit between the two phases.",
    note='crash = task drop (MemStore/SQLite) or process exit (LMDB); durability of the backends under power loss is out of scope', ref="§5 C07"),
  "C08": dict(cat="exploration", technique="runtime monitoring: purge invariants on reachable sets + hour-scale cluster histories against a never-purging LWW model",
    text="Local: at every purge of generated hour-scale histories lookups/live listing unchanged, only reported tombstones vanish, afterwards and after every later step (incl. operations arriving late, behind newer ones of their origin) every operation of the deleting origin not newer than a purged delete is refused. Actor: a purge racing newer puts of the purged ids over slow storage - every re-put id stays live in storage. Cluster: timely histories over virtual hours with the real purge task and explicit purges, final state == LWW model.",
@@ -44,10 +44,10 @@ P = {
    text="T tasks x M calls on the real Clock actor on current-thread and multi-thread runtimes with random yields; all stamps pairwise distinct, per-task strictly increasing, every get_time after a completed register_ts exceeds it; bursts beyond the actor's request queue, rounds that use up one logical tick (counter past the back-pressure limit), and sequences under an injected wall clock that moves on while the clock is idle.",
    note="parallel interleavings are sampled", ref="§5 C11"),
  "C12": dict(cat="fault_enumeration", technique="runtime monitoring + sanitizers: frame-mutation enumeration with independent CRC/size oracle; Miri and ASan on the view path",
-   text="Round trips of generated message families over real loopback HTTP/2; for each valid frame every single-bit flip, truncation and extension goes to DataView::using and as a raw POST to a live server; must-refuse decided by an independent CRC-32 and archived-size oracle; small scalar messages (alignment 1-2, odd sizes); messages with reference-counted fields (one pointee in two fields, the same Arc in consecutive messages serialized on one thread, recycled addresses); large frames (4 KiB..300 KiB) with bit flips concentrated where a block-wise checksum would be blind; Miri (bounds/alignment) on the view path, debug and release builds.",
+   text="Round trips of generated message families over real loopback HTTP/2; for each valid frame every single-bit flip, truncation and extension goes to DataView::using and as a raw POST to a live server; must-refuse decided by an independent CRC-32 and archived-size oracle; small scalar messages (alignment 1-2, odd sizes); a field-less message (zero-sized archive, frame = trailer only); messages with reference-counted fields (one pointee in two fields, the same Arc in consecutive messages serialized on one thread, recycled addresses); large frames (4 KiB..300 KiB) with bit flips concentrated where a block-wise checksum would be blind; Miri (bounds/alignment) on the view path, debug and release builds.",
    note="hook H2 for bulk; real TCP for samples", ref="§5 C12"),
  "C13": dict(cat="exploration", technique="runtime monitoring: registry reference model, all add/remove histories to length 5 executed",
-   text="All histories of add/remove up to length 5 over five universes of services (four plain services sharing message types; generic services Gen<Alpha>/Gen<Beta> whose names differ only by type parameter; three service types registered under ONE name; names that are collision pairs of weak string hashes; names related as strings: strict prefix, suffix, case-only difference); after every step every (service,message) pair is called and compared with the set-of-registered-names model; sample on real TCP; requests to a registered service racing additions/removals of other services on other threads.",
+   text="All histories of add/remove up to length 5 over five universes of services (four plain services sharing message types; generic services Gen<Alpha>/Gen<Beta> whose names differ only by type parameter; three service types registered under ONE name; names that are collision pairs of weak string hashes; names related as strings: strict prefix, suffix, case-only difference); rounds in which two threads change DIFFERENT services at the same instant (each service must end as its own thread left it); after every step every (service,message) pair is called and compared with the set-of-registered-names model; sample on real TCP; requests to a registered service racing additions/removals of other services on other threads.",
    note="hook H2 (same ServerState code as TCP)", ref="§5 C13"),
  "C14": dict(cat="fault_enumeration", technique="runtime monitoring: turmoil network-fault simulations with exactly-once / no-swap / timeout-bound history checker",
    text="Seeded turmoil simulations (partition, hold, release, repair at generated instants; sequential and concurrent requests, handler latency, client timeouts, clients that are clones of one configured client, requests through send(&msg) and through the by-value send_owned alternately) with a per-request history: reply matches request, handler ran at most once, errors only connection/timeout, completion within the timeout. Complements on real loopback TCP: many concurrent requests multiplexed over one channel, replies matched to requests; and the same history checker (incl. handler errors with large messages, which must arrive as themselves) behind a TCP forwarder that cuts (FIN/RST) or stalls connections at seeded moments, also in the middle of a reply body (handler ran at most once, errors only connection/timeout, answer within timeout + a generous real-time bound judged only when the process' own scheduling lag was small). Thorough adds ThreadSanitizer on the multiplex workload.",
